@@ -57,6 +57,9 @@ pub struct Session {
     /// (resolver mode, with upgrade) the upgrade goes to the raw greeter service, which sends its
     /// upgrade reply and a greeting in one write
     pub greet_one_write: bool,
+    /// (with greet_one_write) the greeter sends its greeting 300 ms after the upgrade reply instead:
+    /// the service speaks first while the client is silent
+    pub greet_late: bool,
 }
 
 fn slow_request(ms: u64) -> Value {
@@ -66,7 +69,7 @@ fn slow_request(ms: u64) -> Value {
 fn sess_json(s: &Session) -> Value {
     json!({"mode": format!("{:?}", s.mode), "requests": syms_json(&s.syms), "pipelined": s.pipelined,
         "upgrade_payload_hex": s.upgrade.as_ref().map(|p| p.iter().map(|b| format!("{:02x}", b)).collect::<String>()),
-        "payload_pipelined": s.payload_pipelined, "close_early": s.close_early, "spaced_service": s.spaced, "slow_tail": s.slow_tail, "hangup_while_waiting": s.hangup_while_waiting, "service_greets_after_upgrade": s.greet, "greeting_in_one_write_with_the_upgrade_reply": s.greet_one_write})
+        "payload_pipelined": s.payload_pipelined, "close_early": s.close_early, "spaced_service": s.spaced, "slow_tail": s.slow_tail, "hangup_while_waiting": s.hangup_while_waiting, "service_greets_after_upgrade": s.greet, "greeting_in_one_write_with_the_upgrade_reply": s.greet_one_write, "greeting_300ms_after_the_upgrade_reply": s.greet_late})
 }
 
 fn sess_from(v: &Value) -> Session {
@@ -88,6 +91,7 @@ fn sess_from(v: &Value) -> Session {
         hangup_while_waiting: v["hangup_while_waiting"].as_bool().unwrap_or(false),
         greet: v["service_greets_after_upgrade"].as_bool().unwrap_or(false),
         greet_one_write: v["greeting_in_one_write_with_the_upgrade_reply"].as_bool().unwrap_or(false),
+        greet_late: v["greeting_300ms_after_the_upgrade_reply"].as_bool().unwrap_or(false),
     }
 }
 
@@ -135,6 +139,9 @@ fn upgrade_request(i: usize, s: &Session) -> Value {
     }
     if s.greet_one_write {
         r["method"] = json!("org.verif.greeter.Upgrade");
+        if s.greet_late {
+            r["parameters"]["token"] = json!(format!("late-{}", i));
+        }
     }
     r
 }
@@ -602,7 +609,8 @@ fn session_strategy() -> impl Strategy<Value = Session> {
             let greet = greet && upgrade.is_some();
             // every other greeting session in resolver mode goes to the raw greeter
             let greet_one_write = greet && mode == Mode::Resolver && ix.len() % 2 == 0;
-            let mut s = Session { mode, syms, pipelined, upgrade, payload_pipelined, close_early, spaced, slow_tail, hangup_while_waiting, greet, greet_one_write };
+            let greet_late = greet_one_write && ix.len() % 4 == 0;
+            let mut s = Session { mode, syms, pipelined, upgrade, payload_pipelined, close_early, spaced, slow_tail, hangup_while_waiting, greet, greet_one_write, greet_late };
             if s.syms.is_empty() && s.upgrade.is_none() {
                 s.syms.push(Sym { kind: Kind::Echo, flag: Flag::None });
             }
@@ -685,6 +693,7 @@ pub fn run(args: &Args) -> ! {
                 hangup_while_waiting: false,
                 greet: false,
                 greet_one_write: false,
+                greet_late: false,
             };
             ctx.case(Some(hash64(&sess_json(&s).to_string())));
             ctx.class(&format!("fixed:{:?}{}", mode, if spaced { "(spaced-JSON service)" } else { "" }));
@@ -695,6 +704,34 @@ pub fn run(args: &Args) -> ! {
                 Err(f) => {
                     ctx.violation(&f.key, &f.what, "c18", sess_json(&s));
                 }
+            }
+        }
+    }
+    // the service speaks first after the upgrade (raw greeter service, resolver mode): in the same write
+    // as its reply, and 300 ms later while the client is silent
+    for (late, pipelined) in [(false, false), (true, false), (false, true), (true, true)] {
+        let s = Session {
+            mode: Mode::Resolver,
+            syms: vec![Sym { kind: Kind::Echo, flag: Flag::None }, Sym { kind: Kind::EchoVariant, flag: Flag::None }],
+            pipelined,
+            upgrade: Some(b"client payload after the greeting\n\0tail".to_vec()),
+            payload_pipelined: false,
+            close_early: false,
+            spaced: false,
+            slow_tail: false,
+            hangup_while_waiting: false,
+            greet: true,
+            greet_one_write: true,
+            greet_late: late,
+        };
+        ctx.case(Some(hash64(&sess_json(&s).to_string())));
+        ctx.class("fixed:Resolver(service speaks first after the upgrade)");
+        ctx.force_sample(sess_json(&s));
+        match pt::guard(|| judge(&w, &s)) {
+            Ok(None) => {}
+            Ok(Some(_)) => slow_once += 1,
+            Err(f) => {
+                ctx.violation(&f.key, &f.what, "c18", sess_json(&s));
             }
         }
     }
@@ -722,7 +759,7 @@ pub fn run(args: &Args) -> ! {
             ctx.class("service-speaks-first-after-upgrade");
         }
         if s.greet_one_write {
-            ctx.class("greeting-in-one-write-with-the-upgrade-reply");
+            ctx.class(if s.greet_late { "greeting-300ms-after-the-upgrade-reply(client silent)" } else { "greeting-in-one-write-with-the-upgrade-reply" });
         }
         ctx.sample(|| sess_json(s));
         let t0 = Instant::now();
